@@ -179,9 +179,17 @@ def id_mode(snap):
     return [None, "same", "reversed", "sorted"][h64(snap) % 4]
 
 
-def ref_rate(cfg, snap, kw, prefix="iso", tau=None, limit_sigma=None, stats=None, lib=None, ids=None):
-    """The same rate call on a fresh model and fresh ratings. -> ('ok', enc) | ('exc', name)."""
+def ref_rate(cfg, snap, kw, prefix="iso", tau=None, limit_sigma=None, stats=None, lib=None, ids=None, warm=False):
+    """The same rate call on a fresh model and fresh ratings. -> ('ok', enc) | ('exc', name).
+    `warm`: the fresh model first serves an unrelated game, so that the compared call is not
+    always the FIRST call of a model's life."""
     m = build_model(cfg, tau=tau, limit_sigma=limit_sigma, lib=lib)
+    if warm:
+        try:
+            m.rate([[m.rating()], [m.rating(), m.rating()], [m.rating()]], ranks=[2, 1, 2])
+            m.predict_draw([[m.rating()], [m.rating()]])
+        except Exception:
+            pass
     teams = rebuild(m, snap, prefix, stats, ids)
     try:
         res = m.rate(teams, **kw)
